@@ -1,5 +1,5 @@
 """Property -> rules mapping, floors, level texts."""
-from .rules import termination, streams, decoders, layouts, flow, names, pairing, tables, cue
+from .rules import termination, streams, decoders, layouts, flow, names, pairing, tables, cue, isolation
 
 RULES = {}
 FLOORS = {}
@@ -50,6 +50,9 @@ for _f, _n in (("B1", 25), ("B2", 20), ("B3", 5)):
 for _f, _n in (("Q1", 20), ("Q2", 12), ("Q3", 4), ("Q4", 3), ("C1", 15), ("C2", 5)):
     reg(_f, getattr(cue, "rule_" + _f), _n)
 
+for _f, _n in (("I1", 12), ("I2", 6), ("I3", 3), ("O1", 6), ("R1", 1)):
+    reg(_f, getattr(isolation, "rule_" + _f), _n)
+
 COMMON_ASSUMPTIONS = [
     "static analysis of /repo's source only: the package is never imported or executed by the check",
     "the `construct` and `numpy` libraries behave as documented (Pointer seeks absolutely, Prefixed back-patches its length, Struct parses fields in order)",
@@ -62,7 +65,7 @@ def _p(rules, explanation, extra_assumptions=()):
 
 PROPS = {
     "C01": _p(["L1a", "L2", "L8a", "S1", "S3", "S4", "D1a", "D2", "D3a", "D4", "L7", "P7", "N1"], "tmp"),
-    "C02": _p(["L1r", "L2", "L4", "L5", "L8r", "D1r", "D2", "D3r", "D4", "S3", "S7", "T1"], "tmp"),
+    "C02": _p(["L1r", "L2", "L4", "L5", "L8r", "D1r", "D2", "D3r", "D4", "S3", "S7", "T1", "O1", "N1"], "tmp"),
     "C03": _p(["L8c", "T1", "P5", "C2", "Q4", "Q2"], "tmp"),
     "C04": _p(["L1w", "L2", "L7", "P5"], "tmp"),
     "C05": _p(["P1", "P2", "P3", "P6", "P5", "P7", "N3", "N7"], "tmp"),
@@ -74,9 +77,9 @@ PROPS = {
     "C11": _p(["S6", "S5", "S8"], "tmp"),
     "C12": _p(["P4", "P5", "P6"], "tmp"),
     "C13": _p(["T1", "T2", "T3", "T4"], "tmp"),
-    "C14": _p(["L1t", "L4", "L2"], "tmp"),
-    "C15": _p(["S4", "S9", "T1", "L1w"], "tmp"),
-    "C16": _p(["S6", "S8", "N2", "N7"], "tmp"),
+    "C14": _p(["I1", "L1t", "L4", "L2", "S1", "S2"], "tmp"),
+    "C15": _p(["S4", "S9", "T1", "L1w", "I1", "P5"], "tmp"),
+    "C16": _p(["I2", "I3", "R1", "N2", "N7", "S6", "S8", "N5"], "tmp"),
     "C17": _p(["Q1", "Q2", "Q3", "Q4", "T1"], "tmp"),
     "C18": _p(["B1", "B2", "B3"], "tmp"),
     "C19": _p(["T2"], "tmp"),
